@@ -9,7 +9,7 @@ Terms as in `Driver/C07.lean`.  Requests:
 * `desc T | MSET`              → `<hex Str_> <hex String()> <kind> <named><extrastar><variadic><closure> <xcount> <hex emitted names, comma separated | ->`
                                  (`unsupported` for the `types.TypeString` fall-back of type arguments)
 * `hdr K`                      → `<emitHeader name> <readHeader name> <emit words> <read words>`   (K = abi.Kind number)
-* `dird K b`                   → `<directIfaceData 0/1> <needsBoxedReceiver 0/1>`
+* `dird K b`                   → `<directIfaceData 0/1> <needsBoxedReceiver 0/1> <directKind K 0/1>`
 * `shape T`                    → `<directIfaceType 0/1> <RuntimeName header> <hex StructType.PkgPath_ | ~ when the underlying type is no struct>`
 -/
 open LlgoVerif LlgoVerif.Util LlgoVerif.Types
@@ -170,7 +170,7 @@ def handle (st : St) (line : String) : St × String :=
     | none => (st, "bad-op")
   | ["dird", k, b] =>
     match k.toNat?.bind kindOfNat with
-    | some k => (st, bstr (directIfaceData k (b == "1")) ++ " " ++ bstr (needsBoxedReceiver k (b == "1")))
+    | some k => (st, bstr (directIfaceData k (b == "1")) ++ " " ++ bstr (needsBoxedReceiver k (b == "1")) ++ " " ++ bstr (directKind k))
     | none => (st, "bad-op")
   | "shape" :: toks =>
     match parseWhole toks with
